@@ -194,7 +194,7 @@ PROPS = {
                    'exactly these assumptions: quick 8 ASCII bytes + one arbitrary char; thorough 12 bytes, from_segments 3 x 4 bytes, new_with_replace on small module paths. '
                    'Three template-directed rewrites (R8) in is_rust_identifier: the patterns `(&head, tail)` and `|&ch|` become variables plus a dereferencing `let` (Verus has no reference patterns).',
         explanation='Verus obligations on the real is_rust_identifier / Path functions for all inputs; bounded Kani/CBMC checks of the same functions on the real std code',
-        verus=[('path', ['is_rust_identifier', 'Path<MetaForm>::from_segments', 'Path<T>::is_empty', 'Path<T>::ident', 'Path<T>::namespace', 'tmpl::lemma_byte_char', 'tmpl::lemma_bad_char'])],
+        verus=[('path', ['is_rust_identifier', 'Path<MetaForm>::from_segments', 'Path<T>::is_empty', 'Path<T>::ident', 'Path<T>::namespace', 'Path<T>::segments', 'Path<T>::voldemort', 'Path<T>::from_segments_unchecked', 'tmpl::lemma_byte_char', 'tmpl::lemma_bad_char'])],
         kani_quick=['ident_ascii_8', 'ident_unicode_char', 'std_u8_ascii_classes', 'std_strip_prefix_small', 'std_slice_iter_small'],
         kani_thorough=['ident_ascii_12', 'ident_unicode_char', 'std_u8_ascii_classes', 'std_strip_prefix_small', 'std_slice_iter_small', 'ident_contract_3', 'from_segments_3x4', 'path_new_with_replace_small'],
         assumptions=['A11', 'A5', 'VSTD', 'TOOLS'],
